@@ -228,10 +228,10 @@ PROPS = {
                     'identifiers bound in the UNITS map are pairwise distinct (strictly increasing when sorted), every identifier of every '
                     'Unit literal is a key bound to that very literal, every key is one of the identifiers of the unit it is bound to, and '
                     'every identifier consists of unit bytes only and cannot be mistaken for an exponent by the Zinc number lexer; the unit '
-                    'byte class itself is proved equal to the real is_unit_char over all 256 bytes (Kani, complete).'),
+                    'byte class itself is proved equal to the real is_unit_char over all 256 bytes (Kani, complete).'
+                    ' Both decoders are proved to look the unit up by the text they read, unmodified: the Zinc parse_number by exactly the maximal run of unit bytes after the digits, the Hayson parse_number by the unit member verbatim (and it fails when that names no unit).'),
         not_decided=('HashMap::get returns the value inserted for an equal key and None otherwise (assumed: this is the whole of the third '
-                     'sentence); lazy_static initialisation; the magnitudes (f64 text, C01); that parse_number hands exactly the text returned '
-                     'by parse_unit to get_unit (its body is proved panic-free and terminating only); on the Hayson side parse_number is proved to hand the unit member verbatim to get_unit and to fail when it names no unit.'),
+                     'sentence); lazy_static initialisation; the magnitudes (f64 text, C01).'),
         technique='contract-based deductive verification: Verus by(compute) lemmas over the mechanically extracted table + Kani complete byte-class harness',
     ),
     'C16': dict(
